@@ -35,9 +35,14 @@ type Event struct {
 	Targets []int `json:"targets,omitempty"`
 	Skip    bool  `json:"skip,omitempty"`
 
-	// tag: TagSigner signs the tag object; OnPush = push event whose commit is tagged
+	// tag: TagSigner signs the tag object; OnPush = push event whose commit is tagged;
+	// Reuse > 0: re-record the tag object created by tag event Reuse-1 instead of a new one.
+	// approve with TagOn > 0: the approval is for tagging the commit of push event TagOn-1
+	// (to = that commit, from = tag object of tag event FromPush or zero)
 	TagSigner string `json:"tag_signer,omitempty"`
 	OnPush    int    `json:"on_push,omitempty"`
+	Reuse     int    `json:"reuse,omitempty"`
+	TagOn     int    `json:"tag_on,omitempty"`
 }
 
 type History struct {
@@ -159,7 +164,11 @@ func (bl *Builder) Step() {
 			if ev.FromPush >= 0 {
 				from = out.CommitID[ev.FromPush]
 			}
-			err = h.approve(b, ev, from)
+			if ev.TagOn > 0 {
+				err = h.approveTag(b, ev, from, out.CommitID[ev.TagOn-1])
+			} else {
+				err = h.approve(b, ev, from)
+			}
 			if err == nil {
 				out.EntryID[i], err = b.GetReference(rsl.Ref)
 			}
@@ -182,7 +191,11 @@ func (bl *Builder) Step() {
 				signer = keys.ByName(ev.TagSigner)
 			}
 			var tid githash.Hash
-			tid, err = b.Tag(target, ev.Ref[len(gitinterface.TagRefPrefix):], "tag", signer)
+			if ev.Reuse > 0 {
+				tid = out.CommitID[ev.Reuse-1]
+			} else {
+				tid, err = b.Tag(target, ev.Ref[len(gitinterface.TagRefPrefix):], fmt.Sprintf("tag #%d", i), signer)
+			}
 			if err != nil {
 				break
 			}
@@ -198,6 +211,35 @@ func (bl *Builder) Step() {
 			out.Errors[i] = err.Error()
 		}
 	}
+}
+
+func (h *History) approveTag(b Backend, ev *Event, from, commit githash.Hash) error {
+	atts, err := attestations.LoadCurrentAttestations(b)
+	if err != nil {
+		return err
+	}
+	env, err := atts.GetReferenceAuthorizationFor(b, ev.Ref, from.String(), commit.String())
+	if err != nil {
+		stmt, serr := attestations.NewReferenceAuthorizationForTag(ev.Ref, from.String(), commit.String())
+		if serr != nil {
+			return serr
+		}
+		env, err = dsse.CreateEnvelope(stmt)
+		if err != nil {
+			return err
+		}
+	}
+	for _, a := range ev.Approvers {
+		env, err = dsse.SignEnvelope(Ctx, env, keys.DSSE{A: keys.ByName(a)})
+		if err != nil {
+			return err
+		}
+	}
+	if err := atts.SetReferenceAuthorization(b, env, ev.Ref, from.String(), commit.String()); err != nil {
+		return err
+	}
+	sign := setSigner(b, ev.Signer)
+	return atts.Commit(b, "Add tag authorization\n", true, sign)
 }
 
 func (h *History) approve(b Backend, ev *Event, from githash.Hash) error {
